@@ -142,3 +142,52 @@ pub fn any_ctx() -> ContextFrag {
 pub fn zeros(n: usize) -> core::mem::ManuallyDrop<Vec<u8>> {
     core::mem::ManuallyDrop::new(vec![0u8; n])
 }
+
+use core::cell::Cell;
+
+/// Recording CRC calculator (DESIGN 3.1): returns a symbolic constant and records how it
+/// was called — lengths, scalar arguments, and the bytes found at one symbolic index of
+/// the PDU and of the label — so that harnesses can state WHICH bytes were handed to the
+/// calculator without unrolling a CRC loop.
+pub struct RecCrc {
+    pub ret: u32,
+    pub pdu_idx: usize,
+    pub lab_idx: usize,
+    pub calls: Cell<u32>,
+    pub pdu_len: Cell<usize>,
+    pub pdu_at: Cell<Option<u8>>,
+    pub pt: Cell<u16>,
+    pub tl: Cell<u16>,
+    pub lab_len: Cell<usize>,
+    pub lab_at: Cell<Option<u8>>,
+}
+
+impl RecCrc {
+    pub fn new(ret: u32, pdu_idx: usize, lab_idx: usize) -> Self {
+        RecCrc {
+            ret,
+            pdu_idx,
+            lab_idx,
+            calls: Cell::new(0),
+            pdu_len: Cell::new(0),
+            pdu_at: Cell::new(None),
+            pt: Cell::new(0),
+            tl: Cell::new(0),
+            lab_len: Cell::new(0),
+            lab_at: Cell::new(None),
+        }
+    }
+}
+
+impl CrcCalculator for RecCrc {
+    fn calculate_crc32(&self, pdu: &[u8], pt: u16, tl: u16, label: &[u8]) -> u32 {
+        self.calls.set(self.calls.get() + 1);
+        self.pdu_len.set(pdu.len());
+        self.pdu_at.set(if self.pdu_idx < pdu.len() { Some(pdu[self.pdu_idx]) } else { None });
+        self.pt.set(pt);
+        self.tl.set(tl);
+        self.lab_len.set(label.len());
+        self.lab_at.set(if self.lab_idx < label.len() { Some(label[self.lab_idx]) } else { None });
+        self.ret
+    }
+}
